@@ -41,6 +41,13 @@ CLAIMS["C15"] = ("symbolic column-term evaluation over two symbolic ranks; name-
     "Decides per rank, with and without memory events: correlation ids are collected from that rank's own rows whose name is the id of a launch call (kernel launches, plus memcpy/memset launches iff requested; ids looked up with default None and not filtered by truthiness), host side = stream == -1 and device side = stream != -1 both restricted to that set, inner join on correlation, launch_delay = max(ts_device - ts_host - dur_host, 0), cpu_duration/gpu_duration = host/device dur, the four documented columns; all facade arguments bound to like-named parameters.",
     "3/C15")
 
+CLAIMS["C02"] = ("symbolic column-term evaluation on every path with the side filters inlined; complete decision tables of the side predicates over abstract (stream, correlation, name) cases; event-log rules for the two label-addressed stores; whole-program who-may-write scan",
+    "Decides: host/device side predicates are complementary on all 18 abstract cases (gpu = (stream>=0 & correlation>=0) | Event/Context Sync, cpu = not gpu, among rows with correlation != -1); link frame = inner join on correlation; exactly two stores index_x<-index_y and index_y<-index_x addressed by event id with position-based values; sentinel initialisation min(correlation,0) precedes them on every path with a correlation column (try/except and early-return paths included); no other function in hta stores into index_correlation; get_cpu_gpu_correlation selects stream>0 & index_correlation>0 and names gpu_index/cpu_index as its consumer reads them. Uniqueness of ids is an input assumption.",
+    "3/C02")
+CLAIMS["C12"] = ("symbolic evaluation incl. the Python-level step loop (path merging into a decision term); truth tables; typestate rule end = ts + dur across the load path; path enumeration of the step-count guard",
+    "Decides: host rows (stream<0) get the step with step.ts <= ts < step.ts+step.dur read from array positions 0/1/3 that agree with the step frame's column order, default -1; device rows (stream>0) inherit the host-assigned value of row index_correlation iff index_correlation > 0 else -1, after the host store; per-rank trim keeps host-side rows with ts < max(step ts) or (include_last) ts <= max(step end) and device-side rows inner-joined on the kept host rows' correlation; no trim when the table has fewer than two step names; align precedes trim, include_last is forwarded, and end = ts + dur holds after the time shift (typestate).",
+    "3/C12")
+
 REASON_WIP = "checker under construction in this session (see DESIGN.md section 3); not claimed until its check is committed"
 
 
